@@ -1,5 +1,6 @@
 # C18 implementation side (Python): read a CSV text written by the other implementation; reader outcome on a given text
 import io
+import re
 from rbql import rbql_csv
 import c10 as W
 
@@ -9,9 +10,15 @@ def read_text(text, enc, dlm, pol, comment_prefix=None, has_header=False):
         rs = io.StringIO(text) if enc is None else io.BytesIO(text.encode('utf-8' if enc == 'utf-8' else 'latin-1'))
         it = rbql_csv.CSVRecordIterator(rs, enc, dlm, pol, has_header=has_header, comment_prefix=comment_prefix)
         recs = it.get_all_records()
-        return {'records': recs, 'header': it.get_header(), 'warnings': W.warn_kinds(it.get_warnings()), 'error': None}
+        ws = it.get_warnings()
+        nums = None
+        for w in ws:
+            m = re.search(r'record (\d+) -> (\d+) fields, record (\d+) -> (\d+) fields', w)
+            if m:
+                nums = [int(x) for x in m.groups()]
+        return {'records': recs, 'header': it.get_header(), 'warnings': W.warn_kinds(ws), 'fields': nums, 'error': None}
     except Exception as e:
-        return {'records': None, 'header': None, 'warnings': None, 'error': 'IO' if 'IOHandling' in type(e).__name__ else type(e).__name__}
+        return {'records': None, 'header': None, 'warnings': None, 'fields': None, 'error': 'IO' if 'IOHandling' in type(e).__name__ else type(e).__name__}
 
 
 def run_case(c):
